@@ -116,20 +116,32 @@ def target_spec(draw, kinds=("binary", "continuous")):
     return {"kind": kind, "levels": levels, "blocks": blocks}
 
 
+ZERO_POOLS = ("small_int", "dyadic", "half", "tenth")
+
+
 @st.composite
 def feature_spec(draw, name, kind, blocks, dev_mode, dev_blocks, quant_pools=None, allow_missing=True, cat_flavours=None, twin_boost=False, ordinal_numeric=True):
     n_levels = len(blocks)
     spec = {"name": name, "kind": kind}
+    zero_at = None
     if kind == "continuous":
         n_mod = draw(st.integers(12, 60))
         pool = draw(st.sampled_from(quant_pools or ["small_int", "dyadic", "dyadic", "half", "yyyymm", "big", "near", "tiny", "huge"]))
-        values = quant_values(pool, n_mod, draw(st.integers(-30, 30)), draw(st.sampled_from([1, 1, 2, 3, 7])))
+        start, step = draw(st.integers(-30, 30)), draw(st.sampled_from([1, 1, 2, 3, 7]))
+        if pool in ZERO_POOLS and draw(st.booleans()):
+            zero_at = draw(st.integers(0, max(0, n_mod - 2)))  # exactly 0.0 among the values (falsy boundary)
+            start = -zero_at * step
+        values = quant_values(pool, n_mod, start, step)
         wpool = CONT_WEIGHTS
         spec["pool"] = pool
     elif kind == "discrete":
         n_mod = draw(st.integers(2, 15))
         pool = draw(st.sampled_from(quant_pools or ["small_int", "small_int", "dyadic", "half", "yyyymm", "near", "big", "ulp"]))
-        values = quant_values(pool, n_mod, draw(st.integers(-5, 5)), draw(st.sampled_from([1, 1, 2, 10])))
+        start, step = draw(st.integers(-5, 5)), draw(st.sampled_from([1, 1, 2, 10]))
+        if pool in ZERO_POOLS and draw(st.booleans()):
+            zero_at = draw(st.integers(0, max(0, n_mod - 2)))
+            start = -zero_at * step
+        values = quant_values(pool, n_mod, start, step)
         wpool = WEIGHTS
         spec["pool"] = pool
     elif kind == "ordinal":
@@ -168,6 +180,10 @@ def feature_spec(draw, name, kind, blocks, dev_mode, dev_blocks, quant_pools=Non
 
     missing_mode = draw(st.sampled_from(["none", "none", "some", "some", "rare"])) if allow_missing else "none"
     spike = draw(st.integers(-1, n_mod - 1)) if draw(st.integers(0, 3)) == 0 else -1
+    rare_below = False
+    if zero_at is not None and zero_at < n_mod and draw(st.booleans()):
+        spike = zero_at  # over-represented 0 (zero-inflated feature)
+        rare_below = zero_at >= 1 and draw(st.booleans())  # ... with a few rare negative values just below it
     never = set()
     if kind == "ordinal" and n_mod > 2 and draw(st.integers(0, 2)) == 0:
         never = {draw(st.integers(0, n_mod - 1))}
@@ -181,6 +197,8 @@ def feature_spec(draw, name, kind, blocks, dev_mode, dev_blocks, quant_pools=Non
             if i != j:
                 twins.append((i, j))
     spec["twins"] = twins
+    if zero_at is not None:
+        spec["zero_at"] = [zero_at, bool(spike == zero_at), bool(rare_below)]
 
     def table(blocks_):
         rows = []
@@ -191,6 +209,9 @@ def feature_spec(draw, name, kind, blocks, dev_mode, dev_blocks, quant_pools=Non
             ws = [0 if i in never else w for i, w in enumerate(ws)]
             if spike >= 0:
                 ws[spike] = ws[spike] * 10 + 10
+            if rare_below:
+                for i in range(zero_at):
+                    ws[i] = 1 if i == zero_at - 1 else 0
             if missing_mode == "none":
                 wm = 0
             elif missing_mode == "rare":
